@@ -13,13 +13,15 @@ import (
 
 func RunStmts(ctx *Task, nodes ast.Stmts) *errchain.PlError {
 	for _, node := range nodes {
+		// no statement starts once exit() was called, the signal fired,
+		// or a break/continue is pending
+		if ctx.StmtRetrun() {
+			return nil
+		}
+
 		if err := RunExpr(ctx, node); err != nil {
 			ctx.procExit = true
 			return err
-		}
-
-		if ctx.StmtRetrun() {
-			return nil
 		}
 	}
 	return nil
